@@ -507,6 +507,14 @@ def biglat(tier, sizes=(15, 16), quick_sizes=()):
         yield case(f'BIGLAT:contranominal{n}', [full & ~(1 << i) for i in range(n)], n, 'rev')
 
 
+def biglat_plus(n):
+    """The contranominal scale n plus one isolated object / property pair: 2**n + 1 concepts, so the last
+    concept has index 2**n exactly (one past what fits into n bits); Lindig builds 2**15 + 1 concepts in seconds."""
+    full = (1 << n) - 1
+    yield dict(case(f'BIGLAT:contranominal{n}+isolated', [full & ~(1 << i) for i in range(n)] + [1 << n], n + 1, 'rev'),
+               n_concepts=(1 << n) + 1)
+
+
 _MIAN_CHOWLA = [0, 1, 3, 7, 12, 20, 30, 44, 65, 80, 96, 122, 147, 181]    # a Sidon set: all differences distinct
 
 
